@@ -581,3 +581,42 @@ def wake_consume(ctx, rule="R-WAKE-CONSUME"):
         ctx.unknown(rule, "blocking wait on the wake-up queue not found in %s" % j.qual)
     else:
         ctx.holds(rule, inst)
+
+
+def config_range(ctx, rule="R-CONFIG-RANGE"):
+    """the constructor accepts every packets-per-CTS setting the properties quantify over (1..255): no raising path of its argument check is
+    selected by a value in that range"""
+    from .codec import eval_pred
+    P = ctx.prog
+    f = P.func(ECU, "__init__")
+    X = ("p", "max_cmdt_packets")
+    bad = None
+    n = 0
+    pm = parents(f.node)
+    for r in runs(ctx, f):
+        if r.term not in ("raise",):
+            continue
+        gs = r.guards()
+        # the raise statement reached must sit directly under a test of this argument (other raises of the constructor are not its business)
+        rn = r.recs[-1].ev.node if r.recs else None
+        par = pm.get(rn) if rn is not None else None
+        if not (isinstance(par, ast.If) and any(isinstance(x, ast.Name) and x.id == "max_cmdt_packets" for x in ast.walk(par.test))):
+            continue
+        conds = [(g, p) for g, p in gs if contains(g, X)]
+        n += 1
+        try:
+            for v in range(1, 256):
+                if all(bool(eval_pred(g, {X: v})) == p for g, p in conds):
+                    bad = (v, r)
+                    break
+        except (AnalysisError, KeyError, TypeError):
+            continue
+        if bad:
+            break
+    inst = "ElectronicControlUnit(max_cmdt_packets=n) is accepted for every n in 1..255"
+    if bad:
+        ctx.violated(rule, f, inst, "the constructor raises for max_cmdt_packets = %d, a legal packets-per-CTS setting" % bad[0], bad[1].recs[-1].ev.node)
+    elif n:
+        ctx.holds(rule, inst)
+    else:
+        ctx.holds(rule, inst, "no argument check on max_cmdt_packets")
